@@ -47,6 +47,12 @@ def corpus():
         ('post-two-consumers', base, ('alloc_post', 39, [cons(2, 1, [(1, [(0, 1)])]), cons(3, None, [(1, [(0, 1)]), (2, [(0, 2)])])])),
         ('post-conflict-after-create', base, ('alloc_post', 39, [cons(3, None, [(1, [(0, 1)])]), cons(2, 7, [(1, [(0, 1)])])])),
         ('alloc-delete', base, ('alloc_delete', 2)),
+        ('alloc-delete-three-providers', base + [('inv_set', 39, 3, 0, [inv(0, 4)]),
+                                                 ('alloc_put', 39, cons(4, None, [(1, [(0, 1), (2, 5)]), (2, [(0, 1)]), (3, [(0, 2)])]))],
+         ('alloc_delete', 4)),
+        ('put-empty-three-providers', base + [('inv_set', 39, 3, 0, [inv(0, 4)]),
+                                              ('alloc_put', 39, cons(4, None, [(1, [(0, 1)]), (2, [(0, 1)]), (3, [(0, 2)])]))],
+         ('alloc_put', 39, cons(4, 1, []))),
         ('reshape', base, ('reshape', 39, [(2, 2, [inv(0, 8), inv(1, 32)])], [cons(2, 1, [(2, [(0, 1), (1, 4)])]), cons(3, None, [(1, [(0, 1)])])])),
         ('reshape-no-allocations-two-providers', base, ('reshape', 39, [(1, 3, [inv(0, 8)]), (3, 0, [inv(2, 100), inv(1, 64)])], [])),
         ('reshape-no-allocations-one-provider', base, ('reshape', 39, [(3, 0, [inv(0, 4)])], [])),
